@@ -50,7 +50,8 @@ def handle (args : List String) : String :=
       match eval ts with
       | .ok (v, rest) =>
           -- the harness reports the remaining tokens up to the first non-expression token
-          "ok " ++ hex64 v ++ " " ++ (match rest with | [] => "<eol>" | t :: _ => renderTok t)
+          "ok " ++ hex64 v ++ " " ++ toString rest.length ++ " " ++
+            (match rest with | [] => "<eol>" | t :: _ => renderTok t)
       | .err => "err"
       | .fault => "fault"
       | .fuel => "fuel"
